@@ -64,7 +64,8 @@ REQUIRED_COUNTERS = ['histories_checked', 'trial_boundary_faults',
                      'line_failpoints_fired', 'torn_write_deaths',
                      'restarts_completed', 'ids_checked',
                      'distinct_line_locations_hit',
-                     'near_miss_growth_histories']
+                     'near_miss_growth_histories',
+                     'rounds_with_numpy_or_retyped_numbers']
 SHARD_TIMEOUT = {'quick': 1200, 'thorough': 5400}
 BINS_PER_CPU = 4
 
@@ -242,10 +243,12 @@ def run_history(out, hist, tag):
     out_file = wd.path('results' + ext)
     desc = {'k': tag, 'fmt': hist['fmt'], 'tracer': hist['tracer'],
             'rounds': [{kk: r[kk] for kk in ('target', 'sf', 'stop_after',
-                                             'kind', 'foreign', 'nsims')
+                                             'kind', 'foreign', 'nsims',
+                                             'types')
                         if kk in r} for r in hist['rounds']],
             'final': {kk: hist['final'][kk] for kk in ('target', 'sf',
-                                                       'nsims')}}
+                                                       'nsims', 'types')
+                      if kk in hist['final']}}
     mech = f"history/{hist['fmt']}"
     snap_dirs = []
     foreign = set()
@@ -258,7 +261,10 @@ def run_history(out, hist, tag):
             info = V.run_round(r['spec'], out_file, r['target'], r['sf'],
                                inc, snap_dir=sd,
                                stop_after_trials=r.get('stop_after'),
-                               stop_kind=r.get('kind', 'kill'))
+                               stop_kind=r.get('kind', 'kill'),
+                               spec_types=r.get('types'))
+            if r.get('types'):
+                out.count('rounds_with_numpy_or_retyped_numbers')
             inc += 1
             if info['status'] in ('stopped', 'interrupt-propagated') or (
                     r.get('kind') == 'interrupt'
@@ -277,7 +283,7 @@ def run_history(out, hist, tag):
         sd = wd.path('snapF')
         last = latest_snapshot(snap_dirs)
         info = V.run_round(f['spec'], out_file, f['target'], f['sf'], inc,
-                           snap_dir=sd)
+                           snap_dir=sd, spec_types=f.get('types'))
         if info['status'] != 'completed':
             out.violation(f'{mech}/restart-raised',
                           f"the restarted run ended with {info['status']}: "
@@ -366,6 +372,23 @@ def random_histories(rng, n, tier):
         rounds = []
         target = int(rng.integers(1, 6))
         nr = int(rng.integers(1, 5))
+        # how the numbers of the specification are typed in each run
+        g = rng.random()
+        tmode = [None] * (nr + 1)
+        models = None
+        if g < 0.25:
+            tmode = ['numpy'] * (nr + 1)
+        elif g < 0.4:
+            tmode = [str(x) if x != 'None' else None for x in
+                     rng.choice(['numpy', 'None'], size=nr + 1)]
+        elif g < 0.5 and not tracer:
+            models = [{'r_x': 0, 'r_y': 0, 'r_z': 1}]
+            tmode = [str(x) for x in rng.choice(['int', 'float'],
+                                                size=nr + 1)]
+        if models:
+            _mk = mk
+            mk = lambda r, sizes, _mk=_mk, models=models: _mk(  # noqa
+                r, sizes=sizes, models=[dict(m) for m in models])
         for i in range(nr):
             spec = mk(list(rates), sizes=tuple(sizes))
             ns = len(rates) * len(sizes)
@@ -375,7 +398,7 @@ def random_histories(rng, n, tier):
                            'stop_after': stop,
                            'kind': str(rng.choice(['kill', 'interrupt'])),
                            'foreign': bool(tracer and rng.random() < 0.25),
-                           'nsims': ns})
+                           'nsims': ns, 'types': tmode[i]})
             target += int(rng.integers(0, 4))        # non-decreasing
             g = rng.random()
             if g < 0.25:
@@ -389,7 +412,8 @@ def random_histories(rng, n, tier):
         hs.append({'fmt': fmt, 'tracer': tracer, 'rounds': rounds,
                    'final': {'spec': spec, 'target': target,
                              'sf': int(rng.choice([1, 2, 3, 7])),
-                             'nsims': len(rates) * len(sizes)}})
+                             'nsims': len(rates) * len(sizes),
+                             'types': tmode[nr]}})
     return hs
 
 
